@@ -314,6 +314,56 @@ RULE += (' CLOUD/RAIN: per generated file (3- and 5-field layouts) up to 30 cuts
          'bytes, random offsets; region 20 = data size a whole number of steps of the other layout only.')
 
 
+# ----------------------------------------------------------------------------- land-use files evaluated in Coq (Model/Landuse.v)
+from harness import landusecheck as LU  # noqa: E402
+
+_lu_prev = dict(gen=gen, impl=impl, coq_term=coq_term, py_check=py_check, nontrivial=nontrivial, shrink=shrink)
+
+
+def gen(rng, n, tier):  # noqa: F811
+    out = _lu_prev['gen'](rng, n, tier)
+    # old-style (fland, optional topo) and new-style (LUCAT11 / LUCAT26 key, optional LAI / TOPO) files; a share with first payload
+    # bytes that are no UTF-8 (the reader decodes them to sniff the style: region 16)
+    for i in range(max(3, n // 12)):
+        c = LU.gen_lu(rng, tier)
+        for x in LU.cuts_of(rng, c):
+            out.append(dict(kind='lu-cut', content=c, cut=x))
+    return out
+
+
+def impl(case):  # noqa: F811
+    return LU.run_lu(case) if LU.is_lu(case) else _lu_prev['impl'](case)
+
+
+def coq_term(case, obs):  # noqa: F811
+    if LU.is_lu(case):
+        return None if 'raises' in obs else LU.lu_term(case, obs)
+    return _lu_prev['coq_term'](case, obs)
+
+
+def py_check(case, obs):  # noqa: F811
+    if LU.is_lu(case):
+        if 'raises' in obs:
+            return dict(s_ok=False, why='harness/impl raised ' + str(obs))
+        why = LU.lu_py_check(case, obs)
+        return dict(s_ok=not why, region=LU.lu_region(case, obs), why='; '.join(why[:3]))
+    return _lu_prev['py_check'](case, obs)
+
+
+def nontrivial(case, obs):  # noqa: F811
+    if LU.is_lu(case):
+        return obs.get('mm', {}).get('status') == 'ok' or case.get('cut') is not None
+    return _lu_prev['nontrivial'](case, obs)
+
+
+def shrink(case):  # noqa: F811
+    return [] if LU.is_lu(case) else _lu_prev['shrink'](case)
+
+
+LEVEL_TEXT += (' LAND USE (Model/Landuse.v): C14_landuse_every_prefix - the reader accepts a byte prefix only at the end of the land-use record or of an optional '
+               'record, and then presents exactly the first records of the content (such a prefix is itself a valid file). Cuts evaluated in Coq (kind lu-cut).')
+
+
 # ----------------------------------------------------------------------------- GEOS-Chem bpch byte prefixes
 # C14 names bpch in its quantifier: cuts of reference-encoded bpch files through bpch1 (harness/bpchprefix.py reuses the C18
 # machinery; Coq side Corr/BpchPrefix.v, theorem Proofs/BpchPrefixThm.v prefix_open). Corr/C14.v wraps the CAMx terms in `Old`.
